@@ -65,7 +65,7 @@ def run_unit(args):
             if isinstance(e, _ir.Unsupported):
                 # the code under contract uses something the translator does not model: undecided, never a verdict
                 S._record("unit-undecided", "undecided", reason=f"unsupported by the translator: {e}")
-            elif any(f.startswith("/repo/") for f in tb_files):
+            elif any(f.startswith(os.environ.get("LVC_REPO", "/repo").rstrip("/") + "/") for f in tb_files):
                 # the code under contract raised while being extracted on symbolic inputs (e.g. not typeable with symbolic sizes):
                 # undecided for the obligations of this unit, never a verdict
                 S._record("unit-undecided", "undecided", reason=f"the code under contract raised during symbolic extraction: {type(e).__name__}: {str(e)[:300]}")
@@ -199,7 +199,7 @@ def main(argv=None):
         else:
             violations.append(r)
 
-    rdir = os.path.join(ROOT, "replays", prop)
+    rdir = os.path.join(os.environ.get("LVC_REPLAY_DIR") or os.path.join(ROOT, "replays"), prop)      # LVC_REPLAY_DIR: developer tools running several trees in parallel
     if os.path.isdir(rdir) and not a.replay:
         for fn in os.listdir(rdir):  # replay files belong to the current run only
             try:
